@@ -55,6 +55,17 @@ FormatOK(r) ==
     /\ f.pe = ""                               \* the formatted script defines a task ...
     /\ f.dot = r.o.dot /\ f.props = r.o.props /\ f.json = r.o.json    \* ... the identical one
 
+(* services/task_store: the script as the HTTP API returns it (formatted by  *)
+(* default, on the get and on the list code path; raw on request).  A script  *)
+(* the server does not accept as a task (code # 200: e.g. a UDF it does not    *)
+(* know) is not part of the quantifier.                                        *)
+ApiOK(r) ==
+    r.api.code = 200 =>
+        /\ r.api.fcode = 200 /\ r.api.ferr = ""
+        /\ r.api.t = r.t0                        \* GET ...?script-format=formatted (the default)
+        /\ r.api.lt = r.t0                       \* GET list, fields=script
+        /\ r.api.raw                             \* script-format=raw returns the text that was stored
+
 (* JSON form of a lambda (tick/ast/json.go) and the text of what came back *)
 LamOK(m) ==
     \/ /\ m.jerr = "" /\ m.tj = m.t /\ m.eq
@@ -88,6 +99,7 @@ ScriptOK(r) ==
     /\ WFStmt(r.t0)
     /\ (r.want # <<>> => r.has)                \* the literal denotes the documented value
     /\ FormatOK(r)
+    /\ ApiOK(r)
     /\ \A i \in DOMAIN r.lams : LamOK(r.lams[i])
     /\ RenderOK(r.b, r.o.iso)
     /\ PJsonOK(r)
